@@ -5,7 +5,7 @@ EXTENDS Integers, Sequences, FiniteSets, TLC
 
 Langs == {"eng", "fra", "spa"}
 ContactLangs == {"", "fra", "spa", "kin"}
-States == {"absent", "empty", "blank", "present"}
+States == {"absent", "empty", "blank", "present"}   \* ("blanks": several elements, all empty - only for the multi-element parts, see Localization.tla)
 Props == {"text", "attachments", "quick_replies", "name", "arguments"}
 
 NoDup(s) == \A i, j \in DOMAIN s : i # j => s[i] # s[j]
@@ -23,7 +23,8 @@ Prefs(cl, allowed, base) ==
   IN a \o b \o <<base>>
 
 \* run.getText: language the value comes from; "native" when the flow's own text is used
-Usable(st) == st = "present"
+\* [] and [""] are what the editor leaves behind and count as no translation; ["", ""] IS a translation (of nothing)
+Usable(st) == st \in {"present", "blanks"}
 Pick(prefs, base, tr) ==
   LET ok(i) == prefs[i] = base \/ Usable(tr[prefs[i]])
       I == {i \in DOMAIN prefs : ok(i)}
